@@ -423,6 +423,112 @@ func (p Params) MPrime(msg, ctx []byte) []byte {
 type SignOpts struct {
 	Rnd        []byte // ML-DSA: 32 bytes (zeros: deterministic); ignored by Dilithium (deterministic)
 	SkipZCheck bool   // produce a signature whose z violates the norm bound but is otherwise consistent (for verifier tests)
+	Probe      func(Attempt) // called for every attempt of the loop
+}
+
+// Attempt is one iteration of the signing loop with every quantity the four rejection tests look at (all computed, whatever the outcome).
+type Attempt struct {
+	Kappa                int
+	ZMax, R0Max, Ct0Max  int64
+	Hints                int
+	ctilde               []byte
+	z, hints             []poly
+}
+
+func (k *Key) attempt(A [][]poly, mu, rhopp []byte, s1h, s2h, t0h []poly, kappa int) Attempt {
+	p := k.P
+	g2 := int64(p.Gamma2)
+	y := p.expandMask(rhopp, kappa)
+	yh := make([]poly, p.L)
+	for i := range y {
+		yh[i] = ntt(y[i])
+	}
+	w := make([]poly, p.K)
+	w1 := make([]poly, p.K)
+	var w1enc []byte
+	for i := 0; i < p.K; i++ {
+		var t poly
+		for j := 0; j < p.L; j++ {
+			t = padd(t, pmul(A[i][j], yh[j]))
+		}
+		w[i] = invntt(t)
+		for c := range w[i] {
+			w1[i][c] = HighBits(w[i][c], g2)
+		}
+		w1enc = append(w1enc, packBits(w1[i][:], p.w1Bits)...)
+	}
+	ctilde := shake256(p.CTilde, mu, w1enc)
+	c := p.sampleInBall(ctilde)
+	ch := ntt(c)
+	z := make([]poly, p.L)
+	for i := range z {
+		z[i] = padd(y[i], invntt(pmul(ch, s1h[i])))
+	}
+	r0 := make([]poly, p.K)
+	wcs2 := make([]poly, p.K)
+	for i := 0; i < p.K; i++ {
+		wcs2[i] = psub(w[i], invntt(pmul(ch, s2h[i])))
+		for cc := range r0[i] {
+			r0[i][cc] = mod(LowBits(wcs2[i][cc], g2))
+		}
+	}
+	ct0 := make([]poly, p.K)
+	for i := range ct0 {
+		ct0[i] = invntt(pmul(ch, t0h[i]))
+	}
+	hints := make([]poly, p.K)
+	cnt := 0
+	for i := 0; i < p.K; i++ {
+		for cc := 0; cc < N; cc++ {
+			hints[i][cc] = MakeHint(mod(-ct0[i][cc]), mod(wcs2[i][cc]+ct0[i][cc]), g2)
+			cnt += int(hints[i][cc])
+		}
+	}
+	return Attempt{Kappa: kappa, ZMax: infnorm(z), R0Max: infnorm(r0), Ct0Max: infnorm(ct0), Hints: cnt, ctilde: ctilde, z: z, hints: hints}
+}
+
+// BoundaryMessage searches, deterministically from `start`, for a message (empty context) one of whose signing attempts sits exactly on
+// the boundary of ONE rejection test while passing the others - where an off-by-one in that test changes the signature:
+//   "z"  : max|z| = gamma1 - beta (must be rejected)       "r0" : max|r0| = gamma2 - beta (must be rejected)
+//   "h=" : exactly omega hints (must be accepted)          "h+" : omega + 1 hints (must be rejected)
+// and the attempt must be reached, i.e. every earlier attempt is rejected by FIPS 204.
+func (k *Key) BoundaryMessage(kind string, start []byte, maxTries int) []byte {
+	p := k.P
+	g2 := int64(p.Gamma2)
+	bz, br := int64(p.Gamma1-p.Beta), g2-int64(p.Beta)
+	msg := append([]byte{}, start...)
+	for t := 0; t < maxTries; t++ {
+		found, done := false, false
+		k.Sign(p.MPrime(msg, nil), SignOpts{Probe: func(a Attempt) {
+			if done {
+				return
+			}
+			zok, rok, cok, hok := a.ZMax < bz, a.R0Max < br, a.Ct0Max < g2, a.Hints <= p.Omega
+			switch kind {
+			case "z":
+				found = found || (a.ZMax == bz && rok && cok && hok)
+			case "r0":
+				found = found || (a.R0Max == br && zok && cok && hok)
+			case "h=":
+				found = found || (a.Hints == p.Omega && zok && rok && cok)
+			case "h+":
+				found = found || (a.Hints == p.Omega+1 && zok && rok && cok)
+			}
+			if zok && rok && cok && hok {
+				done = true // FIPS 204 returns here: later attempts are never made
+			}
+		}})
+		if found {
+			return msg
+		}
+		for i := 0; i < len(msg); i++ {
+			msg[i]++
+			if msg[i] != 0 {
+				break
+			}
+		}
+	}
+	return nil
 }
 
 // Sign is ML-DSA.Sign_internal(sk, M', rnd) resp. deterministic Dilithium signing.  ok is false if SkipZCheck found nothing.
@@ -449,66 +555,24 @@ func (k *Key) Sign(mprime []byte, o SignOpts) (sig []byte, ok bool) {
 		s2h[i], t0h[i] = ntt(k.S2[i]), ntt(k.T0[i])
 	}
 	for kappa := 0; kappa < 1000*p.L; kappa += p.L {
-		y := p.expandMask(rhopp, kappa)
-		yh := make([]poly, p.L)
-		for i := range y {
-			yh[i] = ntt(y[i])
+		a := k.attempt(A, mu, rhopp, s1h, s2h, t0h, kappa)
+		if o.Probe != nil {
+			o.Probe(a)
 		}
-		w := make([]poly, p.K)
-		w1 := make([]poly, p.K)
-		var w1enc []byte
-		for i := 0; i < p.K; i++ {
-			var t poly
-			for j := 0; j < p.L; j++ {
-				t = padd(t, pmul(A[i][j], yh[j]))
-			}
-			w[i] = invntt(t)
-			for c := range w[i] {
-				w1[i][c] = HighBits(w[i][c], g2)
-			}
-			w1enc = append(w1enc, packBits(w1[i][:], p.w1Bits)...)
-		}
-		ctilde := shake256(p.CTilde, mu, w1enc)
-		c := p.sampleInBall(ctilde)
-		ch := ntt(c)
-		z := make([]poly, p.L)
-		for i := range z {
-			z[i] = padd(y[i], invntt(pmul(ch, s1h[i])))
-		}
-		r0 := make([]poly, p.K)
-		wcs2 := make([]poly, p.K)
-		for i := 0; i < p.K; i++ {
-			wcs2[i] = psub(w[i], invntt(pmul(ch, s2h[i])))
-			for cc := range r0[i] {
-				r0[i][cc] = mod(LowBits(wcs2[i][cc], g2))
-			}
-		}
-		zbad := infnorm(z) >= int64(p.Gamma1-p.Beta)
-		if infnorm(r0) >= g2-int64(p.Beta) {
+		zbad := a.ZMax >= int64(p.Gamma1-p.Beta)
+		if a.R0Max >= g2-int64(p.Beta) {
 			continue
 		}
 		if zbad != o.SkipZCheck {
 			continue
 		}
-		ct0 := make([]poly, p.K)
-		for i := range ct0 {
-			ct0[i] = invntt(pmul(ch, t0h[i]))
-		}
-		if infnorm(ct0) >= g2 {
+		if a.Ct0Max >= g2 {
 			continue
 		}
-		hints := make([]poly, p.K)
-		cnt := 0
-		for i := 0; i < p.K; i++ {
-			for cc := 0; cc < N; cc++ {
-				hints[i][cc] = MakeHint(mod(-ct0[i][cc]), mod(wcs2[i][cc]+ct0[i][cc]), g2)
-				cnt += int(hints[i][cc])
-			}
-		}
-		if cnt > p.Omega {
+		if a.Hints > p.Omega {
 			continue
 		}
-		return p.EncodeSig(ctilde, z, hints), true
+		return p.EncodeSig(a.ctilde, a.z, a.hints), true
 	}
 	return nil, false
 }
